@@ -411,4 +411,99 @@ def oracle_C19(inp):
     return out
 
 
+# ------------------------------------------------------------------------------------------ C08
+
+def seg_glob(pat, item):
+    """the glob relation of the statement: '*' = any run of characters other than '/', every other
+    character matches itself, segment counts agree"""
+    ps, it = pat.split("/"), item.split("/")
+    if len(ps) != len(it):
+        return False
+    for p, x in zip(ps, it):
+        rx = "[^/]*".join(re.escape(piece) for piece in p.split("*"))
+        if re.fullmatch(rx, x, re.DOTALL) is None:
+            return False
+    return True
+
+
+def oracle_C08(inp):
+    from spil import FindInList
+    from spil.sid.read.tools import unfold_search
+    L, s = inp["l"], inp["s"]
+    if ">" in s or any("[" in x for x in L) or "[" in s:
+        return []
+    out = []
+    try:
+        got = list(FindInList(list(L)).find(s, as_sid=False))
+    except SpilException:
+        return []   # error cases are C07's
+    except BaseException as e:  # noqa
+        return ["FindInList.find(%r) raised %s: %s" % (s, type(e).__name__, e)]
+    x = Sid(s)
+    alias_last = str(x).split("/")[-1] in conf.extension_alias
+    if x and not x.is_search() and not alias_last:
+        expected = {str(x)} if str(x) in L else set()
+    else:
+        try:
+            unfolded = [str(u) for u in unfold_search(s)]
+        except SpilException:
+            return []
+        if any("?" in u for u in unfolded):
+            return []
+        expected = {e for e in L if any(seg_glob(u, e) for u in unfolded)}
+    if len(got) != len(set(got)):
+        out.append("find(%r) yields duplicates: %r" % (s, got))
+    if set(got) != expected:
+        out.append("find(%r) over %r: expected %r, got %r" % (s, L, sorted(expected), sorted(got)))
+    # match: found by s in a list containing only itself
+    if L:
+        item = L[0]
+        y = Sid(item)
+        if y:
+            try:
+                m = y.match(s)
+                alone = list(FindInList([item]).find(s, as_sid=False))
+                if m != (alone == [item] or Sid(s) == y):
+                    out.append("%r.match(%r) = %r but find in [itself] gives %r" % (item, s, m, alone))
+            except SpilException:
+                pass
+    return out
+
+
+# ------------------------------------------------------------------------------------------ C09
+
+def oracle_C09(inp):
+    from spil import FindInList
+    from spil.sid.read.tools import unfold_search
+    L, s, index = inp["l"], inp["s"], inp["index"]
+    if any("[" in x for x in L) or "[" in s:
+        return []
+    try:
+        unfolded = [str(u) for u in unfold_search(s)]
+    except SpilException:
+        return []
+    if not unfolded:
+        return []
+    for u in unfolded:   # premise: '>' at one position in every unfolded form
+        segs = u.split("/")
+        if ">" not in segs or segs.index(">") != index:
+            return []
+    try:
+        got = list(FindInList(list(L)).find(s, as_sid=False))
+        matching = list(FindInList(list(L)).find(s.replace(">", "*"), as_sid=False))
+    except BaseException as e:  # noqa
+        return ["find(%r) raised %s: %s" % (s, type(e).__name__, e)]
+    groups = {}
+    for e in matching:
+        segs = e.split("/")
+        groups.setdefault(tuple(segs[:index]), []).append(segs)
+    expected = {"/".join(max(g)) for g in groups.values()}
+    out = []
+    if len(got) != len(set(got)):
+        out.append("find(%r) yields duplicates" % s)
+    if set(got) != expected:
+        out.append("find(%r) over %r: expected %r, got %r" % (s, L, sorted(expected), sorted(got)))
+    return out
+
+
 ORACLES = {name[7:]: fn for name, fn in list(globals().items()) if name.startswith("oracle_")}
